@@ -6,6 +6,7 @@ message ever sent and the number the peer has processed; the FIFO queue is the u
 All theorems quantify over **every** finite interleaving of `sendA`, `sendB`, `recvA`, `recvB`
 (and replays of processed messages), by induction over the action list with the invariant `Inv`.
 -/
+import P2.Extracted.C37
 import P2.Model.TwoParty
 
 namespace P2.C37
@@ -726,5 +727,29 @@ example : (Sys.init.run demo).2 =
      .err .unknownSecret, .sent, .got 4, .err .preKeyReuse, .err .unknownSecret] := by decide
 example : LegalRun Sys.init demo := by
   refine ⟨trivial, trivial, trivial, trivial, trivial, trivial, trivial, trivial, ?_, ?_, ?_, trivial, trivial, ?_, ?_, trivial⟩ <;> decide
+
+/-! ## Tie to the current source text (DESIGN.md §4.2) -/
+
+/-- **The model is the source.** `./check` re-extracts these fragments from /repo on every run
+    (regular expressions anchored on the surrounding statements; a fragment that no longer matches is
+    itself a failure of the proof stage). They are the key bookkeeping of `TwoParty::{send, receive, encrypt, decrypt}` as transcribed in `P2.TwoParty.Party.{send, decrypt, receive}`: own keys `min..=index` are dropped and `min := index + 1`, lookups by `OwnKey(index)` / the received-key slot, the new own secret stored under the current next index which then advances by 1, `their_verifying_key` / `their_next_key_used` updates of send and receive, `key_used` and `sender_next_index` taken before the update, X3DH iff no verifying key yet with the bundle `take()`n, indices starting at 1, and `KeyManager::use_onetime_secret` REMOVING the one-time secret. Any edit of one of these
+    operators / operands / call shapes changes the extracted text and this theorem stops checking —
+    before a single input is generated. -/
+theorem c37_source_ops :
+    P2.Extracted.C37.pruneRange = "y.our_min_key_index..index + 1"
+    ∧ P2.Extracted.C37.pruneNewMin = "index + 1"
+    ∧ P2.Extracted.C37.ownKeyLookup = "y.our_secret_keys.get(&index)"
+    ∧ P2.Extracted.C37.receivedKeyOpen = "hpke_open(&ciphertext, our_received_secret_key, None, None)"
+    ∧ P2.Extracted.C37.sendStoreKey = "y_i.our_next_key_index, for_us.our_new_secret"
+    ∧ P2.Extracted.C37.sendTheirPk = "Some(for_us.their_new_verifying_key)"
+    ∧ P2.Extracted.C37.sendNextUsed = "KeyUsed::ReceivedKey"
+    ∧ P2.Extracted.C37.sendKeyUsed = "y_i.their_next_key_used"
+    ∧ P2.Extracted.C37.sendIndex = "y.our_next_key_index"
+    ∧ P2.Extracted.C37.recvUpdates = "y_i.their_verifying_key = Some(plaintext_message.sender_new_verifying_key); y_i.their_next_key_used = KeyUsed::OwnKey(plaintext_message.sender_next_index); y_i.our_received_secret_key = Some(plaintext_message.receiver_new_secret);"
+    ∧ P2.Extracted.C37.encryptSwitch = "&y.their_verifying_key"
+    ∧ P2.Extracted.C37.bundleTake = "take"
+    ∧ P2.Extracted.C37.initIndices = "our_next_key_index: 1, our_min_key_index: 1"
+    ∧ P2.Extracted.C37.onetimeConsume = "y.onetime_secrets.remove(&id)" :=
+  ⟨rfl, rfl, rfl, rfl, rfl, rfl, rfl, rfl, rfl, rfl, rfl, rfl, rfl, rfl⟩
 
 end P2.C37
